@@ -2,13 +2,22 @@
 (* Call orders on a few well-formed and hostile messages: every sequence of  *)
 (* at most MaxOps public read calls, with the invariants of MsgReader.tla,   *)
 (* and (Gen configuration) every such sequence as an S->I behaviour with the  *)
-(* expected result after every call.                                          *)
+(* expected result after every call.  Two alphabets share the machine: the    *)
+(* section cursors together with the message-level calls, opened on the       *)
+(* question section (mode "msg"), and the section cursors together with the   *)
+(* typed views (limit_to, limit_to_in, into_records, unwrap, clone), opened   *)
+(* on any section (mode "view").                                              *)
 EXTENDS MsgReader, Json
 
-CONSTANT MaxOps
+CONSTANTS MaxOps,       \* calls per behaviour, mode "msg"
+          MaxViewOps,   \* calls per behaviour, mode "view"
+          ManyViews     \* TRUE: the larger set of views (thorough tier)
+
+VARIABLES mode,        \* which alphabet
+          start        \* the section the cursor was opened on
 
 VARIABLE hist          \* the calls so far with their results (generator only)
-allvars == <<m, cur, saved, last, hist>>
+allvars == <<m, cur, saved, last, hist, mode, start>>
 
 Hdr(fl, qd, an, ns, ar) == EncU16(4660) \o EncU16(fl) \o EncU16(qd) \o EncU16(an) \o EncU16(ns) \o EncU16(ar)
 RecO(owner, t, class, ttlhi, ttllo, rd, delta) ==
@@ -38,16 +47,62 @@ Msgs == {
      \o RecO(<<1, 66, 0>>, 5, 1, 0, 60, <<1, 65, 0>>, 0)
 }
 
+\* records of several classes (CH 3, HS 4, NONE 254, ANY 255 next to IN), of
+\* several types, one with RDATA its type rejects: what the typed views
+\* filter on.  An RFC 2136 update looks like the second one.
+MixedMsgs == {
+  \* answer: A CH / A IN / A IN with three octets / CNAME HS; authority: A HS
+  Hdr(33792, 1, 4, 1, 0) \o QA \o RecO(<<192, 12>>, 1, 3, 0, 60, <<192, 0, 2, 1>>, 0)
+     \o RecO(<<192, 12>>, 1, 1, 0, 61, <<192, 0, 2, 2>>, 0)
+     \o RecO(<<192, 12>>, 1, 1, 0, 62, <<192, 0, 2>>, 0)
+     \o RecO(<<192, 12>>, 5, 4, 0, 63, <<1, 98, 0>>, 0)
+     \o RecO(<<1, 98, 0>>, 1, 4, 0, 64, <<192, 0, 2, 5>>, 0),
+  \* answer: CNAME CH / MX IN with trailing junk; additional: A NONE / A IN / OPT / A ANY
+  Hdr(43008, 1, 2, 0, 4) \o QA \o RecO(<<192, 12>>, 5, 3, 0, 60, <<1, 98, 0>>, 0)
+     \o RecO(<<192, 12>>, 15, 1, 0, 60, <<0, 10, 192, 12, 7>>, 0)
+     \o RecO(<<192, 12>>, 1, 254, 0, 0, <<10, 0, 0, 1>>, 0)
+     \o RecO(<<1, 66, 0>>, 1, 1, 0, 9, <<10, 0, 0, 2>>, 0)
+     \o RecO(<<0>>, 41, 1232, 0, 32768, <<0, 10, 0, 1, 7>>, 0)
+     \o RecO(<<192, 12>>, 1, 255, 0, 0, <<10, 0, 0, 3>>, 0),
+  \* answer: A CH, then A IN whose owner points forward (framing error), then A IN
+  Hdr(33792, 1, 3, 0, 0) \o QA \o RecO(<<192, 12>>, 1, 3, 0, 60, <<192, 0, 2, 1>>, 0)
+     \o RecO(<<192, 60>>, 1, 1, 0, 61, <<192, 0, 2, 2>>, 0)
+     \o RecO(<<192, 12>>, 1, 1, 0, 62, <<192, 0, 2, 3>>, 0)
+}
+
 Ops == {"next", "nextsec", "fork", "restore", "canon", "opt", "first"}
 
-MCInit == \E msg \in Msgs : InitFor(msg) /\ hist = <<>>
-Step(act) == act /\ Len(hist) < MaxOps /\ hist' = Append(hist, last')
-MCNext == Step(NextItem) \/ Step(NextSection) \/ Step(Fork) \/ Step(Restore)
-          \/ Step(CanonName) \/ Step(OptCall) \/ Step(FirstQ)
+\* the views of mode "view"
+ViewsSmall == { TView("lim", "A"), TView("limin", "A"), TView("limin", "All"), TView("any", "All") }
+ViewsMany == ViewsSmall \cup { TView("lim", "All"), TView("lim", "Cname"), TView("limin", "Cname"),
+                                TView("limin", "Mx"), TView("lim", "Opt"), TView("lim", "Zone"),
+                                TView("limin", "Unknown") }
+Views == IF ManyViews THEN ViewsMany ELSE ViewsSmall
+\* well-formed, forward-pointing owner (parse fails, skip works), mixed classes
+ViewMsgs == MixedMsgs \cup
+  { msg \in Msgs : QD(msg) = 1 /\ AN(msg) \in 1..2 /\ (NS(msg) + AR(msg) >= 1 \/ (At(msg, 19) = 192 /\ At(msg, 20) = 40)) }
+
+MCInit ==
+  /\ hist = <<>>
+  /\ \/ mode = "msg" /\ start = 0 /\ \E msg \in Msgs : InitFor(msg)
+     \/ mode = "view" /\ \E msg \in ViewMsgs, sec \in 0..3 : CanOpen(msg, sec) /\ InitAt(msg, sec) /\ start = sec
+Step(act, md) ==
+  /\ md \in {mode, "both"}
+  /\ act
+  /\ Len(hist) < (IF mode = "msg" THEN MaxOps ELSE MaxViewOps)
+  /\ hist' = Append(hist, last') /\ UNCHANGED <<mode, start>>
+MCNext == Step(NextItem, "both") \/ Step(NextSection, "both") \/ Step(Fork, "both") \/ Step(Restore, "both")
+          \/ Step(CanonName, "msg") \/ Step(OptCall, "msg") \/ Step(FirstQ, "msg")
+          \/ (\E v \in Views : Step(Limit(v), "view")) \/ Step(Unwrap, "view")
 MCSpec == MCInit /\ [][MCNext]_allvars
 
 \* exhaustiveness over states: the history is not part of the fingerprint
-NoHistView == <<m, cur, saved, last, Len(hist)>>
+NoHistView == <<m, cur, saved, last, Len(hist), mode, start>>
+
+\* the messages of this module carry no record whose layout the specification
+\* does not know where a typed view would take it (the expected results of
+\* the S->I behaviours are single-valued)
+NoUndecided == last.k # "und"
 
 \* S->I: one case per call sequence (every prefix is a case of its own)
 DevI == INSTANCE Wire WITH Dev <- DevNames
@@ -58,7 +113,7 @@ EmitOrders == Len(hist) >= 1 =>
                    IF hist[i].op = "canon" THEN [k |-> dcn.k, v |-> dcn.name, pos |-> hist[i].pos]
                    ELSE ideal[i]]
   IN PrintT("CASE " \o ToJson(
-       [in |-> [m |-> m, ops |-> [i \in 1..Len(hist) |-> hist[i].op]],
+       [in |-> [m |-> m, start |-> start, ops |-> [i \in 1..Len(hist) |-> hist[i].op]],
         exp |-> [res |-> ideal],
         dev |-> IF devres # ideal THEN [D_cname_ancount_overflow |-> [res |-> devres]] ELSE [none |-> 0]]))
 =============================================================================
